@@ -207,7 +207,27 @@ func hostileStream(ch *Choices) ([]byte, string) {
 func hostileStreamN(ch *Choices) ([]byte, string, int) {
 	var b bytes.Buffer
 	f := &foreignBuilder{ch: ch, Features: map[string]int{}}
-	switch ch.Intn(12, "hostile.kind") {
+	switch ch.Intn(13, "hostile.kind") {
+	case 12:
+		// thousands of objects whose list-typed field is a back-reference to ONE earlier list
+		n := ch.Range(2000, 20000, "fanin.n")
+		b.WriteByte(0x57) // ordinal 0
+		b.WriteByte('C')
+		b.WriteByte(3)
+		b.WriteString("K09")
+		b.WriteByte(0x91)
+		b.WriteByte(1)
+		b.WriteString("l")
+		b.WriteByte(0x60) // ordinal 1
+		b.WriteByte(0x79) // its list: ordinal 2
+		b.WriteByte(0x91)
+		for i := 0; i < n; i++ {
+			b.WriteByte(0x60)
+			b.WriteByte(0x51)
+			b.WriteByte(0x92)
+		}
+		b.WriteByte('Z')
+		return b.Bytes(), fmt.Sprintf("%d objects whose list field is a back-reference to one list", n), 1
 	case 10:
 		// a class definition that declares far more fields than it carries, then instances
 		declared := 1 << uint(ch.Range(10, 30, "clsdef.exp"))
